@@ -101,7 +101,7 @@ def run(ctx):
         ctx.violation(k, f"reader on\n{text}chains={chains}: expected {exp}, got {got}",
                       {"pdb": text, "chains": chains, "expected": exp})
     # ---- T -------------------------------------------------------------------------------
-    cases = runbank.base_cases(ctx) + constructed_cases(ctx)
+    cases = runbank.base_cases(ctx) + constructed_cases(ctx) + runbank.kit_cases(ctx, every=1 if ctx.thorough() else 9)
     recs, metas, _ = runbank.run_and_record(ctx, cases)
     for m, (name, text, optargs) in zip(metas, [(c[0], c[1], c[2]) for c in cases]):
         if "exc" in m:
